@@ -19,8 +19,8 @@ from . import model, scenario as scen
 from .scheduler import Scheduler, pkey
 from .world import PathError, World, held_changes, path_arg_ids, reference, reference_alt_form
 
-RUN_TIMEOUT_S = 40
-AMBIENT_EXCEPTIONS = ("RecursionError", "FloatingPointError")
+RUN_TIMEOUT_S = 120
+AMBIENT_EXCEPTIONS = ("RecursionError", "FloatingPointError", "InjectedInterrupt")
 WARNING_NAMES = ("RuntimeWarning", "UserWarning", "DeprecationWarning", "FutureWarning", "Warning")
 
 
@@ -123,6 +123,7 @@ def history_child(sc, surface, ops=None):
         "ops": ops,
         "events": events,
         "held_changed": held_changes(world),
+        "epoch_texts": world.epoch_texts if world.epoch else None,
         "state_hashes": state_hashes,
         "final_arg_digests": world.arg_digest,
         "pristine_arg_digests": world.pristine_digest,
@@ -142,19 +143,26 @@ def _state_hash(world, sched):
     return int.from_bytes(h.digest()[:8], "big")
 
 
-def oracle_child(sc, requests, alt_every=5):
-    """Child O: history-free reference for exactly the observed (spec, path) pairs."""
+def rkey(sid, path, epoch=0):
+    return "%s%s|%s" % (sid, ("@%d" % epoch) if epoch else "", pkey(path))
+
+
+def oracle_child(sc, requests, alt_every=5, epoch_texts=None):
+    """Child O: history-free reference for exactly the observed (spec, path[, epoch]) triples."""
     _set_environment(sc["knobs"])
-    texts = model.arg_texts(sc)
+    texts0 = model.arg_texts(sc)
     out = {}
     alt = {}
     # References must not depend on one another, so any order is as good as any other; the
     # REVERSE of the history's order is used so that state leaking from one evaluation into
     # the next (module-level memo, process-wide numpy/warnings state) contaminates H and O
     # differently and shows up as a mismatch (which I7 then attributes).
-    for n, (sid, path) in enumerate(reversed(list(requests))):
+    for n, req in enumerate(reversed(list(requests))):
+        sid, path = req[0], req[1]
+        epoch = req[2] if len(req) > 2 else 0
+        texts = epoch_texts[epoch] if (epoch and epoch_texts) else texts0
         d, s, _k, x = reference(sc, texts, sid, path)
-        out["%s|%s" % (sid, pkey(path))] = [d, s, x]
+        out[rkey(sid, path, epoch)] = [d, s, x]
         if alt_every and len(requests) <= 4:
             shifts = (1, 2, 3)  # replay of a minimised history: try every other form
         elif alt_every and n % alt_every == 0:
@@ -164,7 +172,7 @@ def oracle_child(sc, requests, alt_every=5):
         for shift in shifts:
             d2, s2, _k2, x2 = reference_alt_form(sc, texts, sid, path, shift)
             if d2 != d:
-                alt["%s|%s" % (sid, pkey(path))] = [shift, d2, s2, x2]
+                alt[rkey(sid, path, epoch)] = [shift, d2, s2, x2]
                 break
     return {"ref": out, "alt": alt}
 
@@ -198,8 +206,8 @@ def compare(sc, hist, orc):
     for ev in hist["events"]:
         op = ev["op"]
         if op[0] in ("READ", "READX"):
-            sid, path = ev["sid"], op[3]
-            hkey = "%s.%s|%s" % (op[1], op[2], pkey(path))
+            sid, path = ev["sid"], ev.get("full") or op[3]
+            hkey = "%s.%s|%s" % (op[1], op[2], pkey(op[3]))
             if op[0] == "READX":
                 # the hostile host state may legitimately change what THIS read returns (it may fail,
                 # or take one of the library's documented fallbacks such as the default repr); only
@@ -210,7 +218,7 @@ def compare(sc, hist, orc):
             hkey = None
         else:
             continue
-        key = "%s|%s" % (sid, pkey(path))
+        key = rkey(sid, path, ev.get("v", 0))
         exp = ref.get(key)
         if exp is None:
             raise HarnessError("oracle has no entry for %s" % key)
@@ -226,6 +234,7 @@ def compare(sc, hist, orc):
                 "kind": mismatch_kind(ev.get("x"), exp[2]),
                 "family": path_family(path),
                 "op": op[0],
+                "epoch": ev.get("v", 0),
             }
         # I1 / I2 are implied by I3; they are recorded to localise without the oracle
         if hkey is not None:
@@ -255,6 +264,7 @@ def compare(sc, hist, orc):
         )
     for key, (shift, d2, s2, x2) in sorted(orc.get("alt", {}).items()):
         sid, pk = key.split("|", 1)
+        sid = sid.split("@", 1)[0]
         violations.append(
             {
                 "invariant": "I6",
@@ -276,15 +286,16 @@ def requests_of(hist):
     for ev in hist["events"]:
         op = ev["op"]
         if op[0] == "READ":
-            sid, path = ev["sid"], op[3]
+            sid, path = ev["sid"], ev.get("full") or op[3]
         elif op[0] == "PROBE":
             sid, path = op[1], op[2]
         else:
             continue
-        k = "%s|%s" % (sid, pkey(path))
+        e = ev.get("v", 0)
+        k = rkey(sid, path, e)
         if k not in seen:
             seen.add(k)
-            out.append((sid, path))
+            out.append((sid, path, e))
     return out
 
 
@@ -304,7 +315,7 @@ def log_digest(hist, orc):
 def run_stats(sc, hist, violations):
     kn = sc["knobs"]
     ops = {}
-    fired = {"F1": 0, "F2": 0, "F3": 0, "F4": 0, "F5": 0, "F6": 0}
+    fired = {"F1": 0, "F2": 0, "F3": 0, "F4": 0, "F5": 0, "F6": 0, "F8": 0}
     probes = {}
     edits = 0
     edited_args = set()
@@ -373,12 +384,16 @@ def run_stats(sc, hist, violations):
                 bump("dimension_apply_transforms_called")
             if any(isinstance(s, dict) and s.get("call") == "translate_element_id" for s in path):
                 bump("translate_element_id_called")
+        if kind == "HOLD":
+            bump("client_kept_a_handed_out_object_as_its_own_handle")
+        if kind == "EDIT" and ev.get("edit") == "applied":
+            fired["F8"] = fired.get("F8", 0) + 1
         if kind == "DROP":
             fired["F2"] += 1
             if edited_args:
                 bump("drop_after_edit")
         if kind == "RELOAD":
-            if ev.get("reload") not in (None, "immutable"):
+            if ev.get("reload") not in (None, "immutable") and not str(ev.get("reload")).startswith("skipped"):
                 fired["F3"] += 1
                 if ev.get("edited"):
                     bump("reload_of_edited_argument")
@@ -457,7 +472,7 @@ def run_stats(sc, hist, violations):
 # ------------------------------------------------------------------ the run
 
 
-def purity(sc, reqs, orc, violations):
+def purity(sc, reqs, orc, violations, epoch_texts=None):
     """I7: the reference itself must not depend on what was evaluated before it.
 
     Child O evaluates many references one after the other in one process. Each mismatch
@@ -470,16 +485,16 @@ def purity(sc, reqs, orc, violations):
     todo, seen = [], set()
     for v in violations[:3]:
         if v["invariant"] in ("I3", "I4") and v["sid"] is not None:
-            todo.append((v["sid"], v["path"]))
+            todo.append((v["sid"], v["path"], v.get("epoch", 0)))
     todo.append(reqs[-1])
     todo.append(reqs[(sc.get("run_seed") or 0) % len(reqs)])
     out = []
-    for sid, path in todo:
-        key = "%s|%s" % (sid, pkey(path))
+    for sid, path, epoch in todo:
+        key = rkey(sid, path, epoch)
         if key in seen:
             continue
         seen.add(key)
-        alone = fork_call(lambda: oracle_child(sc, [(sid, path)], alt_every=0))["ref"][key]
+        alone = fork_call(lambda: oracle_child(sc, [(sid, path, epoch)], alt_every=0, epoch_texts=epoch_texts))["ref"][key]
         batch = orc["ref"][key]
         if alone[0] != batch[0]:
             out.append({
@@ -494,9 +509,9 @@ def execute(sc, surface, ops=None, want_trace=False, max_viol=5):
     """Run scenario `sc` (scheduled, or replaying `ops`) and judge it."""
     hist = fork_call(lambda: history_child(sc, surface, ops))
     reqs = requests_of(hist)
-    orc = fork_call(lambda: oracle_child(sc, reqs))
+    orc = fork_call(lambda: oracle_child(sc, reqs, epoch_texts=hist.get("epoch_texts")))
     violations = compare(sc, hist, orc)
-    impure = purity(sc, reqs, orc, violations)
+    impure = purity(sc, reqs, orc, violations, hist.get("epoch_texts"))
     n_refs = len(reqs)
     if impure:
         # a contaminated reference makes I3 verdicts against it meaningless: report I7 first
@@ -516,7 +531,7 @@ def execute(sc, surface, ops=None, want_trace=False, max_viol=5):
         res["scenario"] = sc
         res["ops"] = hist["ops"]
         res["events"] = [
-            {k: ev[k] for k in ("i", "op", "d", "s", "x", "sid", "chg", "reload", "env") if k in ev} for ev in hist["events"]
+            {k: ev[k] for k in ("i", "op", "d", "s", "x", "sid", "full", "v", "edit", "dropped", "chg", "reload", "env") if k in ev} for ev in hist["events"]
         ]
     return res
 
